@@ -156,8 +156,18 @@ Definition add_unit (k : Qc) (c : cnode) : cnode :=
 Record ph1 := { s_opc : list (string * (expr * Qc)); s_labels : list (string * nat); s_circ : list cnode;
                 s_lmap : list (string * (nat * nat)) }.   (* frontend node -> (position in circ, unit) *)
 
-Definition node_step (nodec : list (expr * cnode)) (vec : bool) (s : ph1) (nd : mnode) : ph1 :=
+(* SECOND SWITCH: false = PyRates as it is (OperatorTemplate.cache keyed by the operator NAME: D9/D26); true = with
+   /verif/fixes/proposed_fix_C13_op_cache_key.diff (keyed by name, equations and variable declarations: a hit requires the same
+   definition).  harness/c13.py reads this line. *)
+Definition fixed_op_cache_key : bool := false.
+
+Definition node_step_k (ok : bool) (nodec : list (expr * cnode)) (vec : bool) (s : ph1) (nd : mnode) : ph1 :=
   let '(eqe, kd, opc') :=
+    if ok then
+      (m_eq nd, m_kdef nd,
+       if existsb (fun e => String.eqb (m_op nd) (fst e) && expr_eqb (m_eq nd) (fst (snd e)) && Qc_eqb (m_kdef nd) (snd (snd e))) (s_opc s)
+       then s_opc s else (s_opc s ++ [(m_op nd, (m_eq nd, m_kdef nd))])%list)
+    else
     match lookup String.eqb (m_op nd) (s_opc s) with
     | Some (e, k) => (e, k, s_opc s)
     | None => (m_eq nd, m_kdef nd, upsert String.eqb (m_op nd) (m_eq nd, m_kdef nd) (s_opc s))
@@ -182,6 +192,11 @@ Definition node_step (nodec : list (expr * cnode)) (vec : bool) (s : ph1) (nd : 
         end
     end
   else fresh.
+
+Definition node_step := node_step_k fixed_op_cache_key.
+(* phase 1 alone (for statements about the operator cache that hold for either value of the switch) *)
+Definition phase1_k (ok : bool) (opc : list (string * (expr * Qc))) (m : model) : list cnode :=
+  s_circ (fold_left (node_step_k ok [] false) (m_nodes m) {| s_opc := opc; s_labels := []; s_circ := []; s_lmap := [] |}).
 
 (* ------------------------------------------------------------------ phase 2: one in_edge operator per targeted IR node,
    named in_edge_<in_edge_indices[label]> (ir/circuit.py:965-969) *)
@@ -442,13 +457,24 @@ Definition ymodel (kA : option Qc) : model :=
                   {| m_label := "B"; m_op := "op"; m_eq := E1; m_kdef := mkq 2 1; m_over := None |} ];
      m_edges := [("A", "B", mkq 2 1)] |}.
 
+(* THIRD SWITCH: false = PyRates as it is (from_yaml hands out the cached CircuitTemplate object itself: D28); true = with
+   /verif/fixes/proposed_fix_C13_D28.diff (a cache hit hands out, and caches, a fresh copy of the circuit as it was loaded).
+   harness/c13.py reads this line. *)
+Definition fixed_yaml_copy : bool := false.
+
 (* from_yaml: return the cached object, else load from disk and cache it *)
-Definition from_yaml (g : G) : G * tentry :=
+Definition from_yaml_k (yc : bool) (g : G) : G * tentry :=
   match template_cache g with
-  | Some e => (g, e)
+  | Some e =>
+      if yc then let '(g1, o) := new_obj g in
+                 let e' := {| tc_obj := o; tc_kA := None |} in (set_template (Some e') g1, e')
+      else (g, e)
   | None => let '(g1, o) := new_obj g in
             let e := {| tc_obj := o; tc_kA := None |} in (set_template (Some e) g1, e)
   end.
+Definition from_yaml := from_yaml_k fixed_yaml_copy.
+(* update_var on the object from_yaml handed out: with the repair the mutation never reaches a later from_yaml *)
+Definition mutated (v : Qc) : option Qc := if fixed_yaml_copy then None else Some v.
 
 Definition handle (g : G) (h : nat) : option nat :=
   match handles g with [] => None | hs => nth_error hs (h mod List.length hs) end.
@@ -464,7 +490,7 @@ Definition step_with (fx : bool) (g : G) (o : hop) : G * obs :=
   | YLoad clr =>
       let '(g1, e) := from_yaml g in compile_obj (push_handle (tc_obj e) g1) (tc_obj e) (ymodel (tc_kA e)) false clr
   | YUpd v =>
-      let '(g1, e) := from_yaml g in (set_template (Some {| tc_obj := tc_obj e; tc_kA := Some v |}) g1, OAck)
+      let '(g1, e) := from_yaml g in (set_template (Some {| tc_obj := tc_obj e; tc_kA := mutated v |}) g1, OAck)
   | MClear h =>
       match handle g h with
       | Some ob => if has_ir g ob then (set_ir ob false (clear_caches ob g), OAck)
